@@ -23,19 +23,18 @@ FOREIGN_ATTR = "zzForeignAttr"
 UNLISTED_VAL = "zzUnlistedValue"
 
 
-def w_states(items):
+def one_state(a, seed, fname):
     from metapype.model.node import Node
     from metapype.eml.exceptions import MetapypeRuleError
-    out, n = [], 0
     rules, dfas, elem = G["rules"], G["dfas"], G["elem"]
-    for (i, seed) in items:
-        a = G["A"][i]
+    out, n = [], 0
+    if True:
         unit = a["unit"]
         el = elem.get(unit)
         rnd = random.Random(seed)
         p = c02.build_node(unit, el, None, False, rules, dfas) or c02.build_node(unit, el, None, True, rules, dfas)
         if p is None:
-            continue
+            return n, out
         base = c01.parent_for(unit, el, rules)
         p.content = base.content
         for k in list(p.attributes):
@@ -44,7 +43,7 @@ def w_states(items):
         for slot, v in a["asg"].items():
             if v == "~absent":
                 continue
-            name = FOREIGN_ATTR if slot == "~foreignAttr" else slot
+            name = fname if slot == "~foreignAttr" else slot
             if v == "~unlisted":
                 # one unlisted value stands for all of them - concretised adversarially: values that resemble listed ones
                 listed = [x for x in (rules[unit][0].get(slot) or [None])[1:]]
@@ -70,7 +69,7 @@ def w_states(items):
         ff, craised, errs = c01.validate_both(unit, el, p)
         Node.store.clear()
         n += 1
-        exp = collections.Counter((c, FOREIGN_ATTR if s == "~foreignAttr" else s) for c, s in a["errs"])
+        exp = collections.Counter((c, fname if s == "~foreignAttr" else s) for c, s in a["errs"])
         got = collections.Counter((e[0].name, e[3] if len(e) > 3 else None) for e in errs)
         replay = {"kind": "attrs", "unit": unit, "element": el, "attributes": want, "expected": sorted(exp.elements())}
         if craised is not None:
@@ -85,6 +84,28 @@ def w_states(items):
         elif (ff is not None) != bool(exp):
             which = sorted(exp.elements())[0][0] if exp else "none"
             out.append((f"failfast-{'accepted' if ff is None else 'rejected'}:{which}", f"{unit} attrs {want}: expected errors {sorted(exp.elements())}; fail-fast {ff!r}", replay))
+    return n, out
+
+
+def w_states(items):
+    from metapype.model.node import Node
+    from metapype.eml.exceptions import MetapypeRuleError
+    out, n = [], 0
+    rules, dfas, elem = G["rules"], G["dfas"], G["elem"]
+    for (i, seed) in items:
+        a = G["A"][i]
+        unit = a["unit"]
+        # one foreign attribute name stands for all of them - concretised adversarially: names that resemble declared ones
+        fnames = [FOREIGN_ATTR]
+        if a["asg"].get("~foreignAttr", "~absent") != "~absent":
+            for d in rules[unit][0]:
+                fnames += ["x:" + d, "xml:" + d, d + " ", " " + d, d.upper(), d.capitalize(), d[:-1], d + d, d + ":x", "{u}" + d]
+            fnames += ["", ":", "a:b:c"]
+            fnames = [f for k, f in enumerate(fnames) if f not in rules[unit][0] and f not in fnames[:k]]
+        for fname in fnames:
+            n_, out_ = one_state(a, seed, fname)
+            n += n_
+            out += out_
     # several nodes of one rule - including the same assignment twice - validated by ONE validate.tree walk into ONE list:
     # one error per violated constraint PER NODE, whatever the list already holds
     by_unit = {}
@@ -171,11 +192,12 @@ def run(rep, tier, seed):
                     rep.violation(f"{PID}:allowed_attribute_values:{unit}", f"{unit}.{a}: table says {d['values']}, query says {ro.allowed_attribute_values(a)}", {"kind": "introspection", "unit": unit, "attribute": a})
             except Exception as e:  # noqa: BLE001
                 rep.violation(f"{PID}:introspection-raised:{type(e).__name__}:{unit}", f"{unit}.{a}: {e!r}", {"kind": "introspection", "unit": unit, "attribute": a})
-        for q in (ro.is_required_attribute, ro.allowed_attribute_values):
+        for q, fa in [(q, fa) for q in (ro.is_required_attribute, ro.allowed_attribute_values)
+                      for fa in [FOREIGN_ATTR] + [v for d in decl for v in ("x:" + d, "xml:" + d, d + " ", d.upper(), d[:-1]) if v not in decl]]:
             nQ += 1
             try:
-                q(FOREIGN_ATTR)
-                rep.violation(f"{PID}:introspection-accepts-foreign-attribute:{unit}", f"{q.__name__}({FOREIGN_ATTR!r}) did not raise", {"kind": "introspection", "unit": unit})
+                q(fa)
+                rep.violation(f"{PID}:introspection-accepts-foreign-attribute:{unit}", f"{q.__name__}({fa!r}) did not raise", {"kind": "introspection", "unit": unit})
             except Exception:  # noqa: BLE001 - documented: raises for an unknown attribute
                 pass
     rep.notes["introspection_queries"] = nQ
@@ -184,4 +206,4 @@ def run(rep, tier, seed):
     rep.cov["distinct_nontrivial"] = len(A)
     rep.cov["rule"] = "distinct = attribute assignments (states of MC_Attr) over the abstraction, complete for every rule"
     rep.cov["exhaustive"] = True
-    rep.assumptions += ["one unlisted value / one foreign attribute name stand for all of them (the code only tests membership)"]
+    rep.assumptions += ["one unlisted value / one foreign attribute name stand for all of them in the model; realised adversarially (values and names that resemble declared ones: prefixed, padded, case-changed, truncated, doubled)"]
